@@ -219,7 +219,14 @@ def drive(FullGrid, b, o, t, f, cart, order_seed):
     REC.begin_case({"b": b, "o": o, "t": t, "factor": f, "cartesian": cart, "order": order_seed},
                    cls=[f"cartesian={cart}", f"b_alg={b.split('_')[0]}", f"factor={f}"], sample=(order_seed % 7 == 0))
     try:
-        fg = FullGrid(b, o, t, factor=f, position_grid_cartesian=cart)
+        if order_seed % 5 == 1:
+            # history: the grid is built with the default factor and the public attribute is set afterwards, before the first getter
+            # (all four quantities must follow the one factor the object has when it is asked)
+            REC.classes["factor attribute assigned after construction"] += 1
+            fg = FullGrid(b, o, t, position_grid_cartesian=cart)
+            fg.factor = f
+        else:
+            fg = FullGrid(b, o, t, factor=f, position_grid_cartesian=cart)
         other = None
         if order_seed % 3 == 0:
             # history: between the construction of this grid and its first getter another constructor fails (a direction algorithm given
@@ -324,6 +331,14 @@ def run_shard(spec):
             # goes wrong only for particular shell counts (22, 23, 26, 39, 43-47, 49-52, ... for one such slip), so the count sweeps widely
             T = rng.randint(5, 70)
             nb, no = rng.choice([1, 4]), rng.choice([4, 5, 7])
+        big = (it == 1 and spec["rseed"] % 1000 in ((0,) if spec["tier"] == "quick" else (0, 5, 11, 17, 23, 29))) and not many
+        if big:
+            # large position grids (more than 2^10 / 2^11 / 2^12 position cells, one or four rotations): anything that switches its
+            # method with the size of the position grid (chunking, single precision "to save memory", another container) shows only here
+            lim = rng.choice([1024, 1100] if spec["tier"] == "quick" else [1024, 2048, 2500, 4096])
+            nb = 1 if lim > 1100 else rng.choice([1, 4])
+            no = rng.choice([162, 300, 301, 520])
+            T = lim // no + 1
         r = [rng.randint(5, 40) / 100]
         for _ in range(T - 1):
             r.append(round(r[-1] + rng.choice([0.02, 0.05, 0.1, 0.3]), 4))
@@ -335,7 +350,7 @@ def run_shard(spec):
             (f"linspace(0.2, {round(0.2 + 0.05 * T, 3)}, {T})" if rng.random() < 0.7 else "linspace(0.2, 1.5)")
         f = rng.choice([0.5, 1, 2, 3.7, 1e-3, 250.0, 3, 2500000, 3100000000])   # every factor f > 0, Python ints included (f^3 of the last two
         #                                                                              exceeds the 64-bit integer range)
-        cart = rng.random() < 0.4 and no >= 4 and surrounds(oalg, no)
+        cart = rng.random() < 0.4 and no >= 4 and surrounds(oalg, no) and not big
         b, o = (f"{balg}_{nb}" if nb > 1 else "1"), (f"{oalg}_{no}" if no > 1 else "1")
         drive(FullGrid, b, o, t, f, cart, rng.randrange(10 ** 6))
         if no >= 4 and surrounds(oalg, no) and rng.random() < 0.5:
